@@ -280,6 +280,86 @@ def c11_3b(ck, prog):
         r.ok('get_dispatch_status:status-follows-loader-queue')
 
 
+def c11_6(ck, prog, rid='C11.6'):
+    r = ck.rule(rid, 'while descriptors are pending the loader asks for exactly the bytes that complete the message it '
+                'is in the middle of: every read budget it hands out is (fixed header size | header_len + body_len) '
+                'minus the bytes already buffered beyond whole messages, with descriptor reception switched off, and '
+                'whole buffered messages are skipped by the same amount in both counters', 'ABS',
+                breaks='the transport reads past the end of the current message with descriptor reception off: the '
+                'descriptors of the next message are discarded by the kernel and a valid stream is declared corrupt '
+                'only when it happens to be split there', floor=3)
+    fn = prog.fn('_dbus_message_loader_get_buffer', MSG)
+    if len(fn.params) < 4:
+        raise AnalysisBroken('_dbus_message_loader_get_buffer: parameters changed')
+    budget, mayfd = fn.params[2]['id'], fn.params[3]['id']
+    # R: bytes buffered (and not yet skipped)
+    rem = [lhs for b, i, ev in fn.events() for lhs, how, rhs in written_lvalues(ev)
+           if is_ref(lhs) and how == '=' and is_call(rhs, '_dbus_string_get_length')]
+    if len(rem) != 1:
+        if not rem:
+            r.skip('no descriptor-pending slow path in this configuration')
+            return
+        raise AnalysisBroken('_dbus_message_loader_get_buffer: remaining-bytes variable not found')
+    R = rem[0]
+    # locals with one (structurally unique) definition are expanded
+    defs = {}
+    for b, i, ev in fn.events():
+        for lhs, how, rhs in written_lvalues(ev):
+            if is_ref(lhs) and lhs.get('kind') == 'local' and how in ('=', 'decl') and rhs is not None \
+                    and lhs.get('id') != R['id']:
+                defs.setdefault(lhs['id'], []).append(rhs)
+    from engine.cfg import same_expr
+    uniq = {i: d[0] for i, d in defs.items() if all(same_expr(x, d[0]) for x in d) and not is_int(d[0])}
+
+    def lin2(e, depth=0):
+        if is_ref(e) and e.get('id') in uniq and depth < 6:
+            return lin2(uniq[e['id']], depth + 1)
+        if e is not None and e.get('k') == 'bin' and e['op'] in ('+', '-'):
+            a, b2 = lin2(e['l'], depth + 1), lin2(e['r'], depth + 1)
+            if a is None or b2 is None:
+                return None
+            out = dict(a)
+            for k, v in b2.items():
+                out[k] = out.get(k, 0) + (v if e['op'] == '+' else -v)
+            return {k: v for k, v in out.items() if v}
+        return linear(e)
+    minhdr = prog.macro_int('DBUS_MINIMUM_HEADER_SIZE')
+    n = 0
+    for b, i, ev in fn.events():
+        for lhs, how, rhs in written_lvalues(ev):
+            if lhs.get('k') == 'un' and lhs['op'] == '*' and is_ref(lhs['e']) and lhs['e'].get('id') == budget \
+                    and how == '=' and rhs is not None:
+                if is_int(rhs) and rhs['v'] > 65536:
+                    continue                      # the unrestricted default
+                n += 1
+                ln = lin2(rhs)
+                key = 'get_buffer:budget@%d' % n
+                okv = ln is not None and ln.get(R['name']) == -1 and (
+                    {k: v for k, v in ln.items() if k != R['name']} in ({'': minhdr}, {'header_len': 1, 'body_len': 1}))
+                if okv:
+                    r.ok(key, {'budget': estr(rhs)})
+                else:
+                    r.violation(key, fn.name, MSG, ev['line'],
+                                'with descriptors pending the read budget is set to %s; it must be the size of the '
+                                'message being completed (%d for the fixed header, else header_len + body_len) minus '
+                                '%s, the bytes already buffered for it' % (estr(rhs), minhdr, R['name']))
+    if n < 2:
+        raise AnalysisBroken('_dbus_message_loader_get_buffer: restricted read budgets not found (%d)' % n)
+    # the skip over whole messages moves both counters by the same amount
+    steps = {}
+    for b, i, ev in fn.events():
+        for lhs, how, rhs in written_lvalues(ev):
+            if is_ref(lhs) and how in ('-=', '+=') and rhs is not None:
+                steps[lhs['name']] = (how, lin2(rhs))
+    okstep = steps.get(R['name'], (None, None))[0] == '-=' and any(
+        h == '+=' and l == steps[R['name']][1] for nme, (h, l) in steps.items() if nme != R['name']) \
+        and steps[R['name']][1] == {'header_len': 1, 'body_len': 1}
+    (r.ok('get_buffer:skip-whole-messages') if okstep else
+     r.violation('get_buffer:skip-whole-messages', fn.name, MSG, fn.line,
+                 'a whole buffered message must be skipped by header_len + body_len in both the remaining-bytes and '
+                 'the offset counter; found %s' % steps))
+
+
 def c11_5(ck, prog):
     r = ck.rule('C11.5', 'one notion of "end of message": wherever the loader sizes a read or skips a message from '
                 'the framing lengths reported by _dbus_header_have_message_untrusted, the message length is exactly '
@@ -395,6 +475,7 @@ def run(ck):
         c11_3(ck, prog)
         c11_3b(ck, prog)
         c11_5(ck, prog)
+        c11_6(ck, prog)
         from rules.C05 import QUEUES, c05_4
         r4 = ck.rule('C11.4', 'the loader queue and the connection\'s incoming queue are FIFOs (shared with C05.4)',
                      'TAB', floor=4)
